@@ -352,33 +352,91 @@ func c01r2(c *an.Ctx) {
 	}}
 	res := flow.Run()
 	n := 0
-	for _, ret := range an.Returns(spl) {
-		if !res.Reachable(ret.Block()) {
+	// per way of returning (a merged error value is judged operand by operand, on the edge it comes in by; a
+	// nil-preserving wrapper around the value is looked through)
+	for _, rc := range an.ReturnCases(spl) {
+		ret := rc.Ret
+		if !res.Reachable(ret.Block()) || len(rc.Vals) == 0 {
 			continue
 		}
-		for _, v := range returnedValues(ret, 0) {
-			n++
-			key := fmt.Sprintf("(*Stream).sendPacketLocked | return %s", describeRet(v))
-			if v == nil || an.IsNilConst(v) {
-				ok := true
-				for _, st := range res.Before(ret) {
-					if st != "WF" {
-						ok = false
-					}
-				}
-				c.Check(ok, key, c.At(ret), "after WriteFrame;Flush", "sendPacketLocked can return nil without having written and flushed the packet")
-			} else if call := flushResult(wapi, v); call != nil {
-				// the (wrapped) error of the flushing call itself: nil exactly when the flush succeeded
-				ok := true
-				for _, st := range res.After(call) {
-					if st != "WF" {
-						ok = false
-					}
-				}
-				c.Check(ok, key, c.At(ret), "the flush's own error, after the frame was written", "returns the error of a flush that does not follow the write of the packet")
-			} else {
-				c.Check(provablyNonNil(v, storeBlock(ret, v), 0), key, c.At(ret), "non-nil error", "may return nil before the packet was flushed: "+an.R(v))
+		v := rc.Vals[0]
+		for k := 0; k < 3; k++ {
+			call, isCall := an.Unwrap(v).(*ssa.Call)
+			if !isCall {
+				break
 			}
+			arg, isWrap := errsWrapLike(call.Common())
+			if !isWrap {
+				break
+			}
+			v = arg
+		}
+		n++
+		key := fmt.Sprintf("(*Stream).sendPacketLocked | return %s", describeRet(rc.Vals[0]))
+		at := ret.Block()
+		if rc.At != nil {
+			at = rc.At
+		}
+		statesAt := func() []string {
+			if rc.At != nil && rc.At != ret.Block() && len(rc.At.Instrs) > 0 {
+				last := rc.At.Instrs[len(rc.At.Instrs)-1]
+				if sts := res.After(last); len(sts) > 0 {
+					return sts
+				}
+				if sts := res.Before(last); len(sts) > 0 {
+					return sts // the block ends in a jump: what holds before it holds on the edge
+				}
+			}
+			return res.Before(ret)
+		}
+		_ = at
+		switch {
+		case knownNilCase(v, rc):
+			sts := statesAt()
+			ok := len(sts) > 0
+			for _, st := range sts {
+				if st != "WF" {
+					ok = false
+				}
+			}
+			c.Check(ok, key, c.At(ret), "after WriteFrame;Flush", "sendPacketLocked can return nil without having written and flushed the packet")
+		case flushResult(wapi, v) != nil:
+			// the (wrapped) error of the flushing call itself: nil exactly when the flush succeeded
+			call := flushResult(wapi, v)
+			ok := true
+			for _, st := range res.After(call) {
+				if st != "WF" {
+					ok = false
+				}
+			}
+			c.Check(ok, key, c.At(ret), "the flush's own error, after the frame was written", "returns the error of a flush that does not follow the write of the packet")
+		default:
+			okV := provablyNonNilCase(v, rc) || provablyNonNil(v, storeBlock(ret, v), 0)
+			if phi, isPhi := an.Unwrap(v).(*ssa.Phi); isPhi && !okV {
+				// `err = WriteFrame(); if err == nil { err = Flush() }; return wrap(err)`: each operand on its own edge
+				okV = true
+				for i, e := range phi.Edges {
+					pred := phi.Block().Preds[i]
+					if call := flushResult(wapi, e); call != nil {
+						for _, st := range res.After(call) {
+							if st != "WF" {
+								okV = false
+							}
+						}
+						continue
+					}
+					nonNil := provablyNonNil(e, pred, 0)
+					for _, g := range an.GuardsOfEdge(pred, phi.Block()) {
+						if x, trueNonNil, isTest := nilTestOf(g.Cond); isTest && g.True == trueNonNil && (an.Unwrap(x) == an.Unwrap(e) || sameValue(an.Unwrap(x), an.Unwrap(e))) {
+							nonNil = true
+						}
+					}
+					if !nonNil {
+						okV = false
+					}
+				}
+			}
+			c.Check(okV, key, c.At(ret), "non-nil error", "may return nil before the packet was flushed: "+an.R(v))
 		}
 	}
 	c.Floor("sendPacketLocked returns", 1, n)
@@ -835,7 +893,22 @@ func c01r4(c *an.Ctx) {
 			}
 			n++
 			okRet := true
-			for _, st := range res.Before(ret) {
+			// what is known when the mutex is given up on the way to this return: at an explicit Unlock that leads
+			// here, else (deferred unlock) at the return itself
+			var states []string
+			an.Instrs(put, func(in ssa.Instruction) {
+				call, isCall := in.(*ssa.Call)
+				if !isCall {
+					return
+				}
+				if f := call.Common().StaticCallee(); f != nil && f.Name() == "Unlock" && an.CanReach(in, ret) && an.CanReach(pub, in) {
+					states = append(states, res.Before(in)...)
+				}
+			})
+			if len(states) == 0 {
+				states = res.Before(ret)
+			}
+			for _, st := range states {
 				if !hasTag(st, "published") {
 					continue // a way out that did not publish (closed buffer)
 				}
